@@ -1830,3 +1830,32 @@ def shared_class_containers(cls):
     for n, a in writes:
         if a not in rebound:
             yield n, a, level[a]
+
+
+# --------------------------------------------------------------------------- G22
+
+
+def unguarded_affix_strips(fnode):
+    """`X[:-len(Y)]` (or `X[len(Y):]`) on a path with no `X.endswith(Y)` (`X.startswith(Y)`) fact: when X does not
+    end (start) with Y -- the input ended before the terminator -- that many characters of content are cut off.
+    Yields (subscript, X text, Y text, kind)."""
+    if not isinstance(fnode, (ast.FunctionDef, ast.AsyncFunctionDef)):
+        return
+    for x in walk_fn(fnode):
+        if not (isinstance(x, ast.Subscript) and isinstance(x.slice, ast.Slice) and isinstance(x.ctx, ast.Load)):
+            continue
+        sl = x.slice
+        kind = yv = None
+        if sl.lower is None and isinstance(sl.upper, ast.UnaryOp) and isinstance(sl.upper.op, ast.USub) and \
+                isinstance(sl.upper.operand, ast.Call) and unparse(sl.upper.operand.func) == 'len' and sl.upper.operand.args:
+            kind, yv = 'endswith', sl.upper.operand.args[0]
+        elif sl.upper is None and isinstance(sl.lower, ast.Call) and unparse(sl.lower.func) == 'len' and sl.lower.args:
+            kind, yv = 'startswith', sl.lower.args[0]
+        if kind is None:
+            continue
+        xt, yt = unparse(x.value), unparse(yv)
+        facts = {(unparse(a), p) for t, pol in list(atomic_facts(x)) + list(short_circuit_facts(x)) for a, p in _atoms_of(t, pol)}
+        ok = any(p and t in ('%s.%s(%s)' % (xt, kind, yt),) for t, p in facts) or any(
+            (not p) and t == 'not %s.%s(%s)' % (xt, kind, yt) for t, p in facts)
+        if not ok:
+            yield x, xt, yt, kind
